@@ -4,6 +4,11 @@
   PROVED here (about the shape / control-flow model Model/MpsShape.lean, for all list lengths, all dimension
   assignments, all parameter values and ALL oracle inputs, i.e. whatever norms and singular values LAPACK hands
   the code): the shape, guard, mask, zero-flag and contiguity clauses of the property.
+  Zero flag: a QR step with |R|_F = 0, an SVD step with σ₀ = 0, an SVD step at which tol discards EVERY normalised
+  singular value (tol ≥ 1; repo fix bea8d12 — `tol_discards_all_is_zero_exit`, `tol_discards_all_gives_zeros`), or a zero
+  last tensor under normalise.  The statements of the older theorems are unchanged; what they left implicit — a step
+  that reports a kept rank keeps at least 1 — is now a theorem (`kept_rank_pos`): before the fix the model could report
+  kept rank 0 (bond dimension 0) where the code raised IndexError.
   The numeric clauses (state preservation, isometry, unit norm, truncation error = discarded weight) are proved in
   their ALGEBRAIC form (exact real arithmetic, LAPACK's factorisation contract as hypothesis) in Props/C12/Sweep.lean;
   floating-point behaviour is explored by the monitors of harness/qv/props/c12.py — see the block at the end.
@@ -166,6 +171,41 @@ theorem zero_gives_zeros (p : Params) (m : Mps) (orc : List Orc) (r : Res) (h : 
         have := (hz pre st post htr hk).2
         rw [hf] at this; cases this
 
+/-- (repo fix bea8d12) WHEN an SVD step raises the zero flag: the largest singular value is 0, or tol is on and no
+    normalised singular value exceeds it (`s = s[s > tol]` leaves nothing — tol ≥ 1): kept rank 0 is a zero exit,
+    exactly like σ₀ = 0; chi never causes it -/
+theorem tol_discards_all_is_zero_exit (p : Params) (rows cols : Nat) (sig : List Rat) :
+    stepDecide p false rows cols (.svd sig) = .ok .zero ↔
+      sig ≠ [] ∧ (sig.headD 0 = 0 ∨ ∃ t, p.tol = some t ∧ t ≠ 0 ∧ ∀ x ∈ sig, ¬ t < x / sig.headD 0) := by
+  rw [stepDecide_svd_zero_iff, keptSigmas_length_eq_zero_iff]
+  constructor
+  · rintro ⟨hne, h0 | hnil | ht⟩
+    · exact ⟨hne, Or.inl h0⟩
+    · exact absurd hnil hne
+    · exact ⟨hne, Or.inr ht⟩
+  · rintro ⟨hne, h0 | ht⟩
+    · exact ⟨hne, Or.inl h0⟩
+    · exact ⟨hne, Or.inr (Or.inr ht)⟩
+
+/-- … consequently such a step gives `zeros_like(mps)` with the zero flag (norm 0 where a norm is returned) and is the
+    last step: the instance of `zero_gives_zeros` for the step that met the all-discarding tol -/
+theorem tol_discards_all_gives_zeros (p : Params) (m : Mps) (orc : List Orc) (r : Res) (h : lcf p m orc = .ok r)
+    (pre post : List Step) (st : Step) (htr : r.trace = pre ++ st :: post) (hk : st.kept = none) :
+    r.tensors = zerosLike m ∧ r.zero = true ∧ post = [] := by
+  obtain ⟨h1, h2, _, _⟩ := zero_gives_zeros p m orc r h
+  obtain ⟨hpost, hz⟩ := h2 pre st post htr hk
+  exact ⟨h1 hz, hz, hpost⟩
+
+/-- a step that does NOT raise the zero flag keeps at least rank 1 (non-empty matrix): "kept rank ≥ 1", which the
+    theorems about kept ranks used to leave implicit (before fix bea8d12 the code raised IndexError at kept rank 0
+    and the model returned a bond of dimension 0), now holds for every successful run of the model -/
+theorem kept_rank_pos (p : Params) (m : Mps) (orc : List Orc) (r : Res) (h : lcf p m orc = .ok r) :
+    ∀ st ∈ r.trace, ∀ k, st.kept = some k → 0 < st.rows → 0 < st.cols → 0 < k := by
+  intro st hst
+  obtain ⟨a, c, run, hm, ⟨_, rfl⟩ | ⟨cur, more, sr, rfl, hsw, ⟨_, rfl⟩ | ⟨out, _, rfl⟩⟩⟩ := lcf_ok h
+  · simp at hst
+  all_goals exact sweep_trace_pos p _ more a cur orc sr hsw st hst
+
 /-- `right_canonical_form` is reverse ∘ left_canonical_form(reversed mask) ∘ reverse; reversal is an involution
     that commutes with `zeros_like`, so the zero flag of the right form also yields `zeros_like` of the GIVEN list -/
 theorem rcf_is_reverse_lcf_reverse (p : Params) (m : Mps) (orc : List Orc) :
@@ -299,6 +339,22 @@ example : startStop [some ⟨1, 1, 1, 1⟩, none, some ⟨1, 1, 1, 1⟩] = .erro
 
 example : (lcf { normalise := true } [some ⟨1, 2, 2, 1⟩, some ⟨2, 2, 1, 1⟩] [.svd [0, 0]]).toOption.map (·.tensors) =
     some [some ⟨1, 2, 1, 1⟩, some ⟨1, 2, 1, 1⟩] := by rfl
+
+/-! non-vacuity of the tol exit (fix bea8d12): normalised singular values (1, 1/2) under tol = 1 — nothing is kept:
+    `left_canonical_form` answers zeros_like with the zero flag; `truncate` answers zeros_like with the NON-zero norm of
+    its first (normalising QR) sweep (`z = false`: "norm from putting into left canonical form", as the code has it);
+    tol = 1/2 keeps rank 1 -/
+
+example : (lcf { tol := some 1, normalise := true } [some ⟨1, 2, 2, 1⟩, some ⟨2, 2, 1, 1⟩] [.svd [3, 3/2]]).toOption.map
+      (fun r => (r.tensors, r.zero, r.trace)) =
+    some ([some ⟨1, 2, 1, 1⟩, some ⟨1, 2, 1, 1⟩], true, [⟨0, false, 2, 2, none⟩]) := by decide +kernel
+
+example : (truncate none (some (3/2)) none [some ⟨1, 2, 2, 1⟩, some ⟨2, 2, 1, 1⟩]
+      [.qr 2, .last 5, .svd [1, 1/2]]).toOption.map (fun r => (r.tensors, r.same, r.zero, r.trace2)) =
+    some ([some ⟨1, 2, 1, 1⟩, some ⟨1, 2, 1, 1⟩], false, false, [⟨1, false, 2, 2, none⟩]) := by decide +kernel
+
+example : (lcf { tol := some (1/2) } [some ⟨1, 2, 2, 1⟩, some ⟨2, 2, 1, 1⟩] [.svd [3, 3/2]]).toOption.map (·.tensors) =
+    some [some ⟨1, 2, 1, 1⟩, some ⟨1, 2, 1, 1⟩] := by decide +kernel
 
 /-
 PROVED in Props/C12/Sweep.lean (namespace Qec.C12.Sweep; over ℝ, factorisations as hypotheses):
